@@ -45,7 +45,7 @@ def run_queries(g: Dict[str, List[str]], b: Dict[str, List[str]] | None = None, 
     b = b or {u: [] for u in g}
     scfg = SCFG(graph={u: BasicBlock(name=u, _jump_targets=tuple(g[u]), backedges=tuple(b[u])) for u in g})
     nodes = list(g)
-    rec: Dict[str, Any] = {"g": g, "b": b, "plain": plain}
+    rec: Dict[str, Any] = {"g": g, "b": b, "plain": plain, "order": list(scfg.graph)}
     rec["scc"] = [sorted(c) for c in scfg.compute_scc()]
     try:
         rec["head"] = scfg.find_head()
